@@ -25,7 +25,8 @@ from .data import (Calendar, TimePoint,
                    get_timepoint_for_now as now2point)
 from .dumpers import TimePointDumper
 from .parsers import TimePointParser, DurationParser, TimeRecurrenceParser
-from metomi.isodatetime.exceptions import OffsetValueError
+from metomi.isodatetime.exceptions import (
+    OffsetValueError, StrftimeSyntaxError)
 
 
 class DateTimeOperator(object):
@@ -242,7 +243,10 @@ class DateTimeOperator(object):
         try:
             return self.time_point_parser.strptime(
                 time_point_str, parse_format)
-        except ValueError:
+        except StrftimeSyntaxError:
+            # The format uses directives that isodatetime does not support.
+            # (A string that does not match a supported format must not be
+            # handed to the more lenient datetime library.)
             return self.get_datetime_strptime(time_point_str, parse_format)
 
     @staticmethod
